@@ -195,7 +195,46 @@ func WOp(width int, op string, args ...*Term) *Term {
 		sort.Slice(args, func(i, j int) bool { return args[i].Key() < args[j].Key() })
 	}
 	return TAtom(A.internI(fmt.Sprintf("wop:%d:%s:%s", width, op, strings.Join(ks, ",")), func() *IAtom {
-		return &IAtom{Kind: IWOp, Op: op, Args: args, Idx: width, Lo: bigZero, Hi: new(big.Int).Sub(pow2(width), bigOne)}
+		hi := new(big.Int).Sub(pow2(width), bigOne)
+		// tighter upper bounds for the bitwise operations on non-negative operands
+		nonneg := true
+		var his []*big.Int
+		for _, a := range args {
+			lo, h := a.Bounds()
+			if lo.Sign() < 0 {
+				nonneg = false
+			}
+			his = append(his, h)
+		}
+		if nonneg && len(his) > 0 {
+			switch op {
+			case "and":
+				for _, h := range his {
+					if h.Cmp(hi) < 0 {
+						hi = new(big.Int).Set(h)
+					}
+				}
+			case "or", "xor":
+				bl := 0
+				for _, h := range his {
+					if h.BitLen() > bl {
+						bl = h.BitLen()
+					}
+				}
+				if b := new(big.Int).Sub(pow2(bl), bigOne); b.Cmp(hi) < 0 {
+					hi = b
+				}
+			case "shr":
+				if len(args) == 2 {
+					if k, ok := args[1].IsConst(); ok && k.IsInt64() && k.Int64() >= 0 && k.Int64() < 4096 {
+						if b := new(big.Int).Rsh(his[0], uint(k.Int64())); b.Cmp(hi) < 0 {
+							hi = b
+						}
+					}
+				}
+			}
+		}
+		return &IAtom{Kind: IWOp, Op: op, Args: args, Idx: width, Lo: bigZero, Hi: hi}
 	}))
 }
 
